@@ -136,8 +136,9 @@ ContractRule(mode, k, adj, form) ==
   CASE mode \in {"False", "True", "auto-split-gate"} -> "yes"
     [] mode \in {"split", "reduce-split"} ->
          IF k = 1 THEN "yes"
+         ELSE IF form # "struct" THEN "maybe"          \* merged sites are contracted in whole, lazy gates add bonds
          ELSE IF k >= 3 THEN "no"
-         ELSE IF form = "struct" THEN (IF adj THEN "yes" ELSE "no") ELSE "maybe"
+         ELSE IF adj THEN "yes" ELSE "no"
     [] mode \in {"split-gate", "swap-split-gate"} -> IF k <= 2 THEN "yes" ELSE "no"
     [] OTHER -> "no"
 
